@@ -100,6 +100,9 @@ class History(object):
         self.prox_calls = 0
         self.proj_calls = 0
         self.faults_fired = {}
+        self.lin_calls = []         # site of every call of Model.solve_geom_system made from a context that handles LinAlgError
+        self.ifaults_fired = []     # (j, site) of injected linear-algebra failures
+        self._last_ok_R = None
         self.last_ctrl_state = None
         self.same_state_count = 0
         self.iter_total = 0
@@ -144,6 +147,8 @@ class History(object):
             h.update(('EXC:%s:%s' % (type(self.exc).__name__, self.exc_site)).encode())
         if self.stepcap is not None:
             h.update(b'STEPCAP')
+        for jf in self.ifaults_fired:
+            h.update(('IF:%d:%s' % jf).encode())
         if include_rng:
             h.update(repr(self.rng_end).encode())
         return h.hexdigest()
@@ -156,6 +161,8 @@ class History(object):
             h.update(b'!' if c.fault else b'.')
         for r in self.restarts:
             h.update(r[0].encode())
+        for jf in self.ifaults_fired:
+            h.update(('IF:%s' % jf[1]).encode())
         h.update(self.exit_route().encode())
         return h.hexdigest()[:16]
 
@@ -188,6 +195,27 @@ def _solve_main_eval_lines():
             lines = []
         _site_cache['lines'] = lines
     return _site_cache['lines']
+
+
+_LIN_HANDLED = {('interpolate_mini_models_svd',): 'fit', ('lagrange_gradient', 'geometry_step'): 'geom',
+                ('lagrange_gradient', 'choose_point_to_replace'): 'choose'}
+
+
+def linalg_site():
+    """Which LinAlgError handler (if any) encloses the current call of Model.solve_geom_system: 'fit', 'geom', 'choose' or None."""
+    f = sys._getframe(2)
+    names = []
+    depth = 0
+    while f is not None and depth < 12 and len(names) < 2:
+        co = f.f_code
+        fn = co.co_filename
+        if fn.endswith(_DFOLS_FILES) and '/dfols/' in fn:
+            names.append(co.co_name)
+        f = f.f_back
+        depth += 1
+    if names and names[0] == 'interpolate_mini_models_svd':
+        return 'fit'
+    return _LIN_HANDLED.get(tuple(names))
 
 
 def find_site():
@@ -229,6 +257,22 @@ def innermost_dfols_function(tb):
     return site or 'outside-dfols'
 
 
+EXC_KINDS = ['InjectedFault', 'LinAlgError', 'ValueError', 'OverflowError', 'ZeroDivisionError', 'FloatingPointError']
+
+
+def make_injected(name, k):
+    """The exception object of a `raise` fault.  Besides the harness' own class, the classes dfols itself catches somewhere
+    (LinAlgError, ValueError, OverflowError) and two arithmetic ones: user code fails with ordinary exceptions, and a handler
+    that encloses an evaluation would swallow exactly those (seeded change C08d)."""
+    msg = 'injected at evaluation %d' % k
+    if name in (None, 'InjectedFault'):
+        return InjectedFault(msg)
+    if name == 'LinAlgError':
+        return np.linalg.LinAlgError(msg)
+    return {'ValueError': ValueError, 'OverflowError': OverflowError, 'ZeroDivisionError': ZeroDivisionError,
+            'FloatingPointError': FloatingPointError}[name](msg)
+
+
 class Env(object):
     """All the parties dfols talks to, built from scenario data."""
 
@@ -248,6 +292,9 @@ class Env(object):
             else:
                 self.fault_once.setdefault(int(f['at']), f)
         self.fault_from.sort(key=lambda f: f['at'])
+        self.ifault_at = {}
+        for f in scn.get('ifaults', []) or []:
+            self.ifault_at[int(f['at'])] = f
         nsm = scn['env']['nsamples']
         self.ns_mode = nsm['mode']
         self.ns_values = list(nsm['values'])
@@ -301,7 +348,7 @@ class Env(object):
             H.faults_fired[kind] = H.faults_fired.get(kind, 0) + 1
             if kind == 'raise':
                 c.raised = True
-                exc = InjectedFault('injected at evaluation %d' % k)
+                exc = make_injected(f.get('exc'), k)
                 H.injected = exc
                 raise exc
             val = {'nan': np.nan, '+inf': np.inf, '-inf': -np.inf, '1e200': 1e200}[kind]
@@ -542,6 +589,33 @@ class Instrument(object):
                     pass
             return out
         self._patch(dm.Model, 'interpolate_mini_models_svd', interp)
+
+        # --- internal seam: the linear solve with the (cached) factorisation of the interpolation system.  dfols handles a
+        # LinAlgError from it in three places (model fit, geometry step, choice of the point to replace); calls made from those
+        # contexts are numbered, and the scenario may ask for the j-th of them to fail ("singular system", buggify-style fault)
+        orig_sgs = dm.Model.__dict__['solve_geom_system']
+        ifault_at = H.env.ifault_at if getattr(H, 'env', None) is not None else {}
+
+        def solve_geom_system(self_, *a, **kw):
+            # A failure is *feasible* only if the factorisation was recomputed since the last solve that succeeded: LinAlgError comes
+            # from the triangular solve and depends on R alone, so with the same cached R a later solve fails iff an earlier one did
+            # (e.g. the second choose_point_to_replace call of an iteration can never fail after the first one succeeded).
+            R_now = getattr(self_, 'R', None) if getattr(self_, 'factorisation_current', False) else None
+            feasible = (R_now is None) or (R_now is not H._last_ok_R)
+            site = linalg_site() if feasible else None
+            if site is not None and not H.in_probe:
+                H.lin_calls.append(site)
+                f = ifault_at.get(len(H.lin_calls))
+                if f is not None and f.get('kind', 'linalg') == 'linalg':
+                    H.seq += 1
+                    H.ifaults_fired.append((len(H.lin_calls), site))
+                    H.faults_fired['linalg@' + site] = H.faults_fired.get('linalg@' + site, 0) + 1
+                    import numpy.linalg as _npl
+                    raise _npl.LinAlgError('injected: singular interpolation system')
+            out = orig_sgs(self_, *a, **kw)
+            H._last_ok_R = R_now      # also for calls made by probes: a success with this R makes a later failure with it infeasible
+            return out
+        self._patch(dm.Model, 'solve_geom_system', solve_geom_system)
 
         orig_shift = dm.Model.__dict__['shift_base']
 
